@@ -41,6 +41,7 @@ type Call struct {
 	Reach      []vnet.Ev
 	Reads      []vnet.Ev // delivered to the library
 	Arrived    []vnet.Ev // reached the queue of one of the call's sockets
+	Lost       []vnet.Ev // dropped by the kernel at one of the call's sockets: receive buffer full (Err says whose doing)
 	ReadFails  []vnet.Ev
 	KFails     []vnet.Ev // bind-fail, dial-fail, write-fail, set-deadline-fail
 	Closes     []vnet.Ev
@@ -124,6 +125,10 @@ func Analyse(sc *engine.Scenario, res *engine.Result) *Analysis {
 			c.Reads = append(c.Reads, e)
 		case "udp-arrive", "tcp-arrive":
 			c.Arrived = append(c.Arrived, e)
+		case "udp-lost":
+			if e.Sock != 0 {
+				c.Lost = append(c.Lost, e)
+			}
 		case "read-fail":
 			c.ReadFails = append(c.ReadFails, e)
 		case "bind-fail", "dial-fail", "write-fail", "set-deadline-fail":
